@@ -297,6 +297,7 @@ def pg_transactions(ctx):
 
 # ---- entry points -------------------------------------------------------------------------------------
 def run(ctx):
+    from vf.engines import dm          # fail fast if the dialect-model module is broken
     items = work_items(ctx)
     results = ctx.pmap(worker, [(it, ctx.seed) for it in ctx.shuffled(items)])
     agg = L.merge(ctx, results)
